@@ -456,6 +456,8 @@ def transform_item(t: Txt, opts, subs, log, label):
                 ins(ob + 1, sb, pre='\n', post='')
             elif what == 'body_end':
                 ins(cb, sb, pre='\n', post='\n')
+            elif what == 'after':
+                ins(cb + 1, sb, pre='\n', post='\n')
             else:
                 raise ExtractError(f"{label}: unknown loop position {what}")
     # apply inserts from the end
@@ -605,7 +607,7 @@ def assemble(template_path, repo_root, verif_root):
                             rx, e = parse_regex(rr, 0)
                             kv = parse_kv(rr[e:])
                             cur = Sub('loop', (k, 'spec', rx, kv.get('iter')), i + 1)
-                        elif rr.startswith('body_start') or rr.startswith('body_end'):
+                        elif rr.startswith('body_start') or rr.startswith('body_end') or rr.startswith('after'):
                             cur = Sub('loop', (k, rr.split()[0], None, None), i + 1)
                         else:
                             kv = parse_kv(rr)
